@@ -1,7 +1,7 @@
 (* Properties/C12.v — !eval and f-strings compute what Python computes, with config names visible.
    What is logic is proved here; CPython's compiler / interpreter and the bytecode rewriter are outside the model and are
    decided by the differential oracle (every generated program against native exec / eval in a subprocess). *)
-From AY Require Import Model.EvalCode Proofs.EvalCodeLemmas.
+From AY Require Import Model.EvalCode Proofs.EvalCodeLemmas Model.Patch Proofs.PatchLemmas.
 
 (* Name resolution, for ANY symbols, definitions, config entries and builtins: a name resolves to, in order, a definition
    made by the code itself, a symbol of the evaluation context, the top-level config entry, a builtin. *)
@@ -46,6 +46,40 @@ Proof.
   exists (mkB 5 true [(7, 100)] [] [] 1), (mkB 5 true [(7, 200)] [] [] 2), 7. vm_compute. discriminate.
 Qed.
 Print Assumptions C12_history_refuted.
+
+(* ---- the bytecode rewriter (EvalNode._patch_access_to_globals), as a function on code units ----
+   For EVERY code object (any length, any instructions) on which the patch succeeds: control flow is preserved. Each relative
+   jump of the original code sits, in the patched code, at the image of its position, keeps its opcode, and - for a
+   non-negative argument and a backward jump that does not target its own caches - goes exactly to the image of its old
+   target, where "image" is the rewriter's location map.  (The map is monotone and never shrinks distances: Inv.) *)
+Theorem C12_jumps_retargeted : forall wrapper ayns names nested code out names' st,
+  scan (S (length code)) wrapper ayns names code 0 (mkSS [] [] [] false) = POk st ->
+  patch wrapper ayns names nested code = POk (Some (out, names')) ->
+  forall old new, In (old, new) (s_rj st) ->
+  exists op rel rel' tgt,
+    nth_error code (Z.to_nat old) = Some (op, rel) /\ zmem op Facts.op_hasjrel = true /\
+    zassoc old (s_map st) = Some new /\
+    nth_error out (Z.to_nat new) = Some (op, rel') /\
+    zassoc (jump_target op old rel) (s_map st) = Some tgt /\
+    (0 <= rel -> (is_backward op = true -> jump_base op <= rel) -> jump_target op new rel' = tgt).
+Proof. exact jumps_retargeted. Qed.
+Print Assumptions C12_jumps_retargeted.
+
+(* the second pass rewrites jump arguments only: same number of units, same opcodes as the per-instruction expansion *)
+Theorem C12_patch_keeps_opcodes : forall wrapper ayns names nested code out names' st,
+  scan (S (length code)) wrapper ayns names code 0 (mkSS [] [] [] false) = POk st ->
+  patch wrapper ayns names nested code = POk (Some (out, names')) ->
+  length out = length (s_out st) /\ map fst out = map fst (s_out st).
+Proof. exact patch_ops. Qed.
+Print Assumptions C12_patch_keeps_opcodes.
+
+(* non-vacuity on this interpreter's opcodes:  LOAD_NAME a; POP_JUMP_IF_FALSE +2; LOAD_NAME b; RETURN; LOAD_NAME c; RETURN
+   - three redirected loads, a forward jump across one of them *)
+Example C12_patch_example :
+  exists out st, scan 7 1 2 [3; 4; 5] [(101, 0); (114, 2); (101, 1); (83, 0); (101, 2); (83, 0)] 0 (mkSS [] [] [] false) = POk st /\
+    patch 1 2 [3; 4; 5] false [(101, 0); (114, 2); (101, 1); (83, 0); (101, 2); (83, 0)] = POk (Some (out, [3; 4; 5; 1])) /\
+    In (1, 11) (s_rj st) /\ nth_error out 11 = Some (114, 12) /\ zassoc 4 (s_map st) = Some 24.
+Proof. eexists. eexists. split; [vm_compute; reflexivity|]. split; [vm_compute; reflexivity|]. split; [vm_compute; now left|]. split; vm_compute; reflexivity. Qed.
 
 Example C12_example :
   resolve (nupdate (nupdate [(AYNS, 1)] [(3, 30); (4, 40)]) [(4, 41)]) [(3, 300); (5, 500)] [(6, 600); (5, 501)] 4 = Some 41 /\
